@@ -10,7 +10,7 @@ from ..report import RuleSpec
 from .. import sym
 from .. import order as O
 from .. import frameops as FO
-from .common import unparse, call_name, local_defs, short
+from .common import as_dict, unparse, call_name, local_defs, short
 
 DOM = "reamber.algorithms.utils.dominant_bpm.dominant_bpm"
 SPEED = "reamber.algorithms.analysis.scroll_speed.scroll_speed"
@@ -207,13 +207,14 @@ def _frame_pairing_form(e):
     if not (isinstance(sel.slice, ast.Constant) and isinstance(g, ast.Call) and call_name(g) == "groupby" and isinstance(g.func, ast.Attribute)):
         return None
     fr = g.func.value
-    if not (isinstance(fr, ast.Call) and call_name(fr) == "DataFrame" and len(fr.args) == 1 and isinstance(fr.args[0], ast.Dict)):
+    if not (isinstance(fr, ast.Call) and call_name(fr) == "DataFrame" and len(fr.args) == 1 and as_dict(fr.args[0]) is not None):
         return None
-    cols = {k.value: v for k, v in zip(fr.args[0].keys, fr.args[0].values) if isinstance(k, ast.Constant)}
+    fr_d = as_dict(fr.args[0])
+    cols = {k.value: v for k, v in zip(fr_d.keys, fr_d.values) if isinstance(k, ast.Constant)}
     gk = g.args[0] if g.args else next((k.value for k in g.keywords if k.arg == "by"), None)
     if isinstance(gk, ast.List) and len(gk.elts) == 1:
         gk = gk.elts[0]
-    if not (isinstance(gk, ast.Constant) and len(cols) == 2 and len(fr.args[0].keys) == 2 and gk.value in cols and sel.slice.value in cols
+    if not (isinstance(gk, ast.Constant) and len(cols) == 2 and len(fr_d.keys) == 2 and gk.value in cols and sel.slice.value in cols
             and gk.value != sel.slice.value):
         return None
     return cols[gk.value], cols[sel.slice.value], gk.value, sel.slice.value, fr, g
@@ -420,8 +421,8 @@ def rule_r2(ctx) -> List[R.Inst]:
         return e
     sent = None
     for n in walk_no_nested(fn.node):
-        if isinstance(n, ast.Call) and call_name(n) == "DataFrame" and n.args and isinstance(n.args[0], ast.Dict):
-            d_ = {k.value: v for k, v in zip(n.args[0].keys, n.args[0].values) if isinstance(k, ast.Constant)}
+        if isinstance(n, ast.Call) and call_name(n) == "DataFrame" and n.args and as_dict(n.args[0]) is not None:
+            d_ = {k.value: v for k, v in zip(as_dict(n.args[0]).keys, as_dict(n.args[0]).values) if isinstance(k, ast.Constant)}
             if isinstance(d_.get("offset"), ast.List) and len(d_["offset"].elts) == 2 and sent is None:
                 sent = (n, [unparse(_res_local(x)) for x in d_["offset"].elts])
     if sent is None:
@@ -447,7 +448,7 @@ def rule_r2(ctx) -> List[R.Inst]:
         parts = [unparse(p) for p in sv_concat.args[0].elts]
         i_bpm = [i for i, p in enumerate(parts) if ".bpms.offset" in p]
         i_sv = [i for i, p in enumerate(parts) if ".svs" in p]
-        reset_one = any(".bpms.offset" in p and ("'multiplier': 1" in p or '"multiplier": 1' in p) for p in parts)
+        reset_one = any(".bpms.offset" in p and ("'multiplier': 1" in p or '"multiplier": 1' in p or "multiplier=1," in p.replace(")", ",").replace(" ", "")) for p in parts)
         # the reducer over coincident rows
         red = None
         for n in walk_no_nested(fn.node):
